@@ -65,4 +65,4 @@ META = dict(
     technique="runtime monitoring: shadow-model oracle after every call + snapshot-on-failure + canaries + release-time inspection + ASan/UBSan",
 )
 
-CFG["rule"] += (" " + 'Additions: every 512th case runs real dynamic / secure / self appends on buffers of 8-40 MiB; every 16th case evaluates the precision the AWS_BYTE_*_PRI macros hand to printf for forged lengths and prints a fenced cursor; a third of write_from_whole_cursor calls go through the aws_string entry point; stale aws_last_error()/errno values are left between operations; stage asan_latin1 repeats cases under a single-byte libc locale. Every 16th case also wipes 24 views of 0-24 bytes at every address alignment inside a 64-byte region that ends at an inaccessible page (aws_secure_zero, aws_byte_buf_secure_zero, reset(buf,true), clean_up_secure, a sub-buffer from aws_byte_buf_advance): exactly the view becomes zero.')
+CFG["rule"] += (" " + 'Additions: every 512th case runs real dynamic / secure / self appends on buffers of 8-40 MiB; every 16th case evaluates the precision the AWS_BYTE_*_PRI macros hand to printf for forged lengths and prints a fenced cursor; a third of write_from_whole_cursor calls go through the aws_string entry point; stale aws_last_error()/errno values are left between operations; stage asan_latin1 repeats cases under a single-byte libc locale. Every 16th case also wipes 24 views of 0-24 bytes at every address alignment inside a 64-byte region that ends at an inaccessible page (aws_secure_zero, aws_byte_buf_secure_zero, reset(buf,true), clean_up_secure, a sub-buffer from aws_byte_buf_advance): exactly the view becomes zero. In one cat source in five the destination itself is the source (also as second or third source).')
